@@ -417,7 +417,7 @@ pub fn c01(o: &Opts, t: &mut Tracer) -> Value {
         let pl = payload(payload_len, ci as u64);
         let expect = body_m && ci % 4 == 1;
         let mut rq = RqCfg { method: method.into(), ver10, expect, connclose: ci % 17 == 0, despite: false,
-                             framing: match framing { "cl" => "cl2".into(), "chunked" => "chunked".into(), _ => "default".into() }, conn_other: None };
+                             framing: match framing { "cl" => "cl2".into(), "chunked" => "chunked".into(), _ => "default".into() }, conn_other: None, expect_extra: false };
         // a sized request body needs its real length
         let cl_text = payload_len.to_string();
         let nresp = 1 + ci % 3;
